@@ -46,6 +46,14 @@ if HR is not None:
     for fn, ids in HR.REGISTRY:
         reg(fn, *ids)
 
+for _modname in ('rules_hir2', 'rules_hir3', 'rules_hir4'):
+    try:
+        _m = __import__('vflib.' + _modname, fromlist=['REGISTRY'])
+    except ImportError:
+        continue
+    for fn, ids in _m.REGISTRY:
+        reg(fn, *ids)
+
 
 def inst_has(*subs):
     return lambda ob: any(s in ob.instance for s in subs)
